@@ -33,7 +33,7 @@ def shards(tier):
 def floors(tier):
     return {"trees": 5000, "error_lists": 800, "lists_all_orders": 500, "d3_required_lists": 100,
             "propertyNames_lists": 100, "duplicate_path_keyword_lists": 200, "depth3_lists": 100,
-            "nodes_checked": 20000, "error_free_lookups": 5000}
+            "nodes_checked": 20000, "error_free_lookups": 5000, "context_lists": 400, "context_lists_below_nonempty_path": 150}
 
 
 def value_at(instance, path):
@@ -182,6 +182,19 @@ def one_list(ctx, rng, d, schema, instance):
         case = {"draft": d, "schema": schema, "instance": instance, "order": list(order)}
         ctx.case([d, schema, instance, list(order)], nontrivial=len(errors) >= 2)
         check_tree(ctx, case, instance, errors, order)
+    # the errors an applicator collected from its branches (error.context) are collections produced by iter_errors, too:
+    # their paths are relative to the instance the applicator was applied to, wherever in the document that is
+    for k, parent in enumerate(errors):
+        if not parent.context or k > 6:
+            continue
+        sub = list(parent.context)
+        if parent.absolute_path:
+            ctx.count("context_lists_below_nonempty_path")
+        ctx.count("context_lists")
+        for order in orders(rng, len(sub), ctx)[:6]:
+            case = {"draft": d, "schema": schema, "instance": instance, "order": list(order), "context_of_error": k}
+            ctx.case([d, schema, instance, "context", k, list(order)], nontrivial=len(sub) >= 2)
+            check_tree(ctx, case, parent.instance, sub, order)
 
 
 FIXED = [
